@@ -1,14 +1,17 @@
 import TeosVerif.Driver.TxIndexDrv
+import TeosVerif.Driver.TowerDrv
 /- The model driver: one operation per input line, one canonical output line per operation. -/
 open Teos Teos.Drv
 
 structure DState where
   ti : TiState := {}
+  tw : TwState := {}
 
 def step (st : DState) (line : String) : DState × String :=
   match words line with
   | "case" :: rest => ({}, "case " ++ joinWith " " rest)
   | "ti" :: rest => let (t, o) := tiStep st.ti rest; ({ st with ti := t }, o)
+  | "tw" :: rest => let (t, o) := twStep st.tw rest; ({ st with tw := t }, o)
   | _ => (st, "bad-op")
 
 partial def loop (h : IO.FS.Stream) (out : IO.FS.Stream) (st : DState) : IO Unit := do
